@@ -13,7 +13,7 @@ def esc(s):
 def fixes():
     out = ["| Prop | What failed (input / history) | `fix:` commit subject | Reproduction |", "|---|---|---|---|"]
     for f in sorted([f for f in F if f["status"] == "fixed"], key=lambda f: f["property"]):
-        out.append("| %s | %s | %s | `%s` |" % (f["property"], esc(f["what"]), esc(f["commit"].replace("fix: ", "")), f.get("repro", "")))
+        out.append("| %s | %s | %s | `%s` |" % (f["property"], esc(f["what"]), (f.get("commit_hash", "") + " " + esc(f["commit"].replace("fix: ", ""))).strip(), f.get("repro", "")))
     return "\n".join(out)
 
 
